@@ -243,10 +243,45 @@ def r05_5(ctx):
     return r
 
 
+TPL_ADT = "swc_ecma_ast::Tpl"
+
+
+def _tpl_field_reads(fn, name):
+    out = []
+    for n in walk(fn["body"]):
+        if n.get("k") == "PStruct" and n.get("adt") == TPL_ADT:
+            for f in n.get("fields", []):
+                if f.get("name") == name and f.get("p", {}).get("k") != "PWild":
+                    out.append(n)
+        elif n.get("k") == "Field" and n.get("name") == name and str(n.get("e", {}).get("tya", "")).replace("&", "").replace("mut ", "").strip().endswith(TPL_ADT):
+            out.append(n)
+    return out
+
+
+def r05_6(ctx):
+    r = Rule("R05.6", "a template literal is read as a static string only where its substitutions are looked at too: a function that reads `Tpl.quasis` also reads `Tpl.exprs`",
+             "`type={`${kind}`}` (or any attribute / key given as a template with substitutions) is taken for the constant text of its first quasi: the static branch is chosen for a dynamic value")
+    n_fn = 0
+    for fn in ctx.facts.user_hir():
+        n_fn += 1
+        qs = _tpl_field_reads(fn, "quasis")
+        if not qs:
+            continue
+        es = _tpl_field_reads(fn, "exprs")
+        r.ob("%s reads the substitutions of the template whose quasis it reads" % fn["path"], bool(es), C.mloc(fn, qs[0]),
+             "`exprs` read at %s" % C.mloc(fn, es[0]) if es else "`quasis` is read and `exprs` never is: a template with `${..}` substitutions is indistinguishable from a constant one here")
+    r.saw("%d function bodies of the visitor crate scanned for reads of `Tpl.quasis`" % n_fn)
+    return r
+
+
 def rules(ctx):
     from ..engine import only
     from . import c04
-    return [__import__('vjsx.rules.c10', fromlist=['x']).field_ratchet('the model directive chosen for one element must not depend on an earlier one'), only(c04.r04_5, lambda k: 'takes its modifiers' in k, 'v-model modifiers written as `_suffix`'), r05_1, r05_2, r05_3, r05_4, r05_5,
+    extra = []
+    if ctx.tier == "thorough":
+        from . import controls
+        extra = [controls.control_rule([("R05.6", r05_6, ["tpl_first_quasi"])])]
+    return extra + [__import__('vjsx.rules.c10', fromlist=['x']).field_ratchet('the model directive chosen for one element must not depend on an earlier one'), only(c04.r04_5, lambda k: 'takes its modifiers' in k, 'v-model modifiers written as `_suffix`'), r05_1, r05_2, r05_3, r05_4, r05_5, r05_6,
             only(c01.r01_5, lambda k: "de-duplicated" in k, "a user-written `onUpdate:x` listener beside v-model is merged with the generated one, not replaced"),
             only(c01.r01_1, lambda k: k.startswith(("component predicate", "the Fragment name")), "component vs element host decides prop-style vs directive-style v-model"),
             only(c11.r11_3, lambda k: "visit_mut_jsx_opening_element" in k or "decouple" in k or k.startswith("scan"), "v-models expansion keeps order and position")]
